@@ -709,3 +709,94 @@ Proof.
       unfold last_index. rewrite A, B. fold (last_index (r_log L)). rewrite Hlast. reflexivity. }
     rewrite Hl1 in Hp, Ag. rewrite Hlast. fold LL. split; [exact E|]. split; [exact Hp|]. split; [exact Ag|exact Hc].
 Qed.
+
+(* ================================================================== *)
+(* example: the 3-node star of M/RaftProofsC10Star.v, continued        *)
+(* ================================================================== *)
+
+(* the converged state after the 191 rounds of sp_run *)
+Definition pp_mid : raft * list raft :=
+  match star_rounds (188 + 3) sp_L [sp_F2; sp_F3] with Ok x => x | Panic _ => (sp_L, []) end.
+Definition pp_Lc : raft := fst pp_mid.
+Definition pp_Fsc : list raft := snd pp_mid.
+
+Lemma pp_mid_ok : star_rounds (188 + 3) sp_L [sp_F2; sp_F3] = Ok (pp_Lc, pp_Fsc).
+Proof. vm_compute. reflexivity. Qed.
+
+(* the leader's log in the converged state: same storage, commit index 5 *)
+Lemma pp_Lc_log : r_log pp_Lc = mkLog xp_storeL (u_new 6) 5 5 0 0.
+Proof. vm_compute. reflexivity. Qed.
+
+Lemma pp_Lc_inv : RepInv false (r_log pp_Lc).
+Proof.
+  rewrite pp_Lc_log.
+  assert (E : mkLog xp_storeL (u_new 6) 5 5 0 0 = set_committed xp_logL 5) by reflexivity.
+  rewrite E. apply RepInv_set_committed; [exact xp_logL_inv|vm_compute; discriminate|vm_compute; discriminate|].
+  intros _. vm_compute. discriminate.
+Qed.
+
+Definition pp_pl : progress :=
+  match get_pr pp_Lc 1 with Some p => p | None => xp_pr_probe end.
+
+(* facts about the converged state, each computed on the goal (so that the kernel checks
+   them with the virtual machine) *)
+Lemma pp_conf : conf_of pp_Lc = mkConf [1; 2; 3] [] [] [] false.
+Proof. vm_compute. reflexivity. Qed.
+Lemma pp_ids : map r_id pp_Fsc = [2; 3].
+Proof. vm_compute. reflexivity. Qed.
+Lemma pp_lasts : Forall (fun Fc => last_index (r_log Fc) = last_index (r_log sp_L)) pp_Fsc.
+Proof. vm_compute. repeat constructor. Qed.
+Lemma pp_own : get_pr pp_Lc (r_id sp_L) = Some pp_pl /\ matched pp_pl = last_index (r_log sp_L).
+Proof. vm_compute. split; reflexivity. Qed.
+Lemma pp_misc :
+  u_snapshot (unst (r_log pp_Lc)) = None /\ last_index (r_log sp_L) + 1 < u64_max /\
+  r_max_uncommitted_size pp_Lc = u64_max.
+Proof. vm_compute. repeat split; reflexivity. Qed.
+Lemma pp_voter : exists Fc, In Fc pp_Fsc /\ r_id Fc = 2.
+Proof. vm_compute. eexists. split; [left; reflexivity|reflexivity]. Qed.
+
+(* 251 = (heartbeat_timeout + 2) * pair_measure_bound 6 0 + heartbeat_timeout + 1 *)
+Lemma pp_applies L2 L' Fs' :
+  propose_persist pp_Lc [42] = Ok L2 ->
+  star_rounds (248 + 3) L2 pp_Fsc = Ok (L', Fs') ->
+  committed (r_log L') = last_index (r_log sp_L) + 1 /\
+  Forall2 (prop_done sp_L pp_Lc [42] L') pp_Fsc Fs'.
+Proof.
+  intros Hpp Hrun.
+  destruct pp_misc as (M1 & M2 & M3). destruct pp_own as [O1 O2].
+  apply (star_propose_all sp_L [sp_F2; sp_F3] false false (188 + 3) pp_Lc pp_Fsc pp_pl [42] L2 248 3 L' Fs'
+           sp_leader ltac:(discriminate)); try assumption.
+  all: clear Hpp Hrun.
+  - repeat constructor; cbn; intuition discriminate.
+  - exact sp_start.
+  - intros F [<-|[<-|[]]]; vm_compute; lia.
+  - exact pp_mid_ok.
+  - exact pp_Lc_inv.
+  - apply Forall_forall. exact pp_lasts.
+  - rewrite pp_conf. discriminate.
+  - rewrite pp_conf, pp_ids. cbn. intros v [Hv|[]]. destruct Hv as [<-|[<-|[<-|[]]]]; [left; reflexivity|right; left; reflexivity|right; right; left; reflexivity].
+  - destruct pp_voter as (Fc & HIn & E). exists Fc. split; [exact HIn|]. left. rewrite pp_conf, E. cbn. right. left. reflexivity.
+  - intros F [<-|[<-|[]]]; vm_compute; lia.
+  - vm_compute. lia.
+Qed.
+
+(* and everything runs (computed): the proposed entry (data [42]) is entry 6 of every log,
+   and everybody has committed it *)
+Definition pp_L2 : raft :=
+  match propose_persist pp_Lc [42] with Ok x => x | Panic _ => pp_Lc end.
+
+Lemma pp_L2_ok : propose_persist pp_Lc [42] = Ok pp_L2.
+Proof. vm_compute. reflexivity. Qed.
+
+Definition pp_end : raft * list raft :=
+  match star_rounds (248 + 3) pp_L2 pp_Fsc with Ok x => x | Panic _ => (pp_L2, []) end.
+
+Lemma pp_run :
+  star_rounds (248 + 3) pp_L2 pp_Fsc = Ok pp_end /\
+  committed (r_log (fst pp_end)) = 6 /\
+  map (fun F => log_entries (r_log F) 6 None) (fst pp_end :: snd pp_end) =
+    [Ok (SOk [mkEntry EntryNormal 2 6 [42] []]); Ok (SOk [mkEntry EntryNormal 2 6 [42] []]);
+     Ok (SOk [mkEntry EntryNormal 2 6 [42] []])] /\
+  map (fun F => committed (r_log F)) (snd pp_end) = [6; 6] /\
+  map r_id (snd pp_end) = [2; 3].
+Proof. vm_compute. repeat split; reflexivity. Qed.
